@@ -4,10 +4,12 @@ package main
 
 import (
 	"fmt"
+	"go/token"
 	"go/types"
 	"strings"
 
 	"golang.org/x/tools/go/ssa"
+	"golang.org/x/tools/go/ssa/ssautil"
 )
 
 func (x *X) invoke(s *State, i *ssa.Call, recv Val, m *types.Func, args []Val) bool {
@@ -37,6 +39,14 @@ func (x *X) invoke(s *State, i *ssa.Call, recv Val, m *types.Func, args []Val) b
 	case tn == "cosmossdk.io/core/address.Codec" && name == "StringToBytes":
 		t := tm(args[0])
 		return finish(Tuple{Opq{"bytes:" + t}, Er{sApp("validAddr", t), "904"}})
+	case tn == "cosmossdk.io/log.Logger":
+		// logging has no effect on anything a contract can see; the keeper's logger is the one NewKeeper was given (never nil)
+		switch name {
+		case "With", "Impl":
+			return finish(Opq{"logger"})
+		case "Info", "Debug", "Warn", "Error":
+			return finish(Tuple{})
+		}
 	case tn == "context.Context":
 		return finish(Opq{"ctx." + name})
 	case strings.HasSuffix(tn, "EventManagerI"):
@@ -149,8 +159,116 @@ func (x *X) loadGlobal(s *State, g *ssa.Global) Val {
 		s.ghost[key] = v
 		return v
 	}
+	if mt, isMap := t.Underlying().(*types.Map); isMap {
+		// a table: a package-level map that the package initialiser fills from a literal with constant keys and values
+		// and that nothing else in the program writes (the generated enum name tables are of this kind)
+		if ents, ok := x.V.constMapGlobal(g); ok {
+			key := "globalmap:" + name
+			if v, has := s.ghost[key]; has {
+				if mv, isMV := v.(MapV); isMV {
+					if _, live := s.maps[mv.ID]; live {
+						return mv
+					}
+				}
+			}
+			mv := x.newMap(s, "g."+g.Name(), mt, false)
+			m := s.maps[mv.ID]
+			for _, e := range ents {
+				kv := x.constVal(s, e[0])
+				vv := x.constVal(s, e[1])
+				m.Dom = sStore(m.Dom, tm(kv), "true")
+				m.Val = stoV(m.Val, vv, tm(kv))
+			}
+			s.maps[mv.ID] = m
+			s.ghost[key] = mv
+			return mv
+		}
+	}
 	x.fail("load of global %s", name)
 	return nil
+}
+
+// constMapGlobal: the (key, value) constants of a map global that is written once, by its package initialiser, with a
+// freshly made map updated at constant keys with constant values; false if anything else may write it.
+func (V *Verifier) constMapGlobal(g *ssa.Global) ([][2]*ssa.Const, bool) {
+	if V.constMaps == nil {
+		V.constMaps = map[*ssa.Global]*constMapInfo{}
+	}
+	if ci, ok := V.constMaps[g]; ok {
+		return ci.ents, ci.ok
+	}
+	ci := &constMapInfo{}
+	V.constMaps[g] = ci
+	var mk *ssa.MakeMap
+	stores := 0
+	for fn := range ssautil.AllFunctions(V.prog) {
+		if fn.Pkg == nil || fn.Blocks == nil {
+			continue
+		}
+		for _, b := range fn.Blocks {
+			for _, in := range b.Instrs {
+				switch i := in.(type) {
+				case *ssa.Store:
+					if i.Addr == ssa.Value(g) {
+						stores++
+						m, isMk := i.Val.(*ssa.MakeMap)
+						if !isMk || fn.Pkg != g.Pkg || fn.Name() != "init" || fn.Synthetic == "" {
+							return nil, false
+						}
+						mk = m
+					}
+				case *ssa.UnOp:
+					// a load of the table: only lookups and ranges may use it
+					if i.X == ssa.Value(g) && i.Op == token.MUL && i.Referrers() != nil {
+						for _, r := range *i.Referrers() {
+							switch u := r.(type) {
+							case *ssa.Lookup, *ssa.Range, *ssa.DebugRef:
+							case *ssa.Call:
+								if bi, isB := u.Common().Value.(*ssa.Builtin); isB && bi.Name() == "len" {
+									continue
+								}
+								// the protobuf runtime reads the generated tables (EnumName) and keeps a reference for reflection (RegisterEnum)
+								if f := u.Common().StaticCallee(); f != nil && (strings.HasSuffix(f.String(), "gogoproto/proto.EnumName") || strings.HasSuffix(f.String(), "gogoproto/proto.RegisterEnum")) {
+									continue
+								}
+								return nil, false
+							default:
+								return nil, false
+							}
+						}
+					}
+				}
+			}
+		}
+	}
+	if stores != 1 || mk == nil || mk.Referrers() == nil {
+		return nil, false
+	}
+	for _, r := range *mk.Referrers() {
+		switch u := r.(type) {
+		case *ssa.MapUpdate:
+			k, kOK := u.Key.(*ssa.Const)
+			v, vOK := u.Value.(*ssa.Const)
+			if !kOK || !vOK || u.Map != ssa.Value(mk) {
+				return nil, false
+			}
+			ci.ents = append(ci.ents, [2]*ssa.Const{k, v})
+		case *ssa.Store:
+			if u.Val != ssa.Value(mk) || u.Addr != ssa.Value(g) {
+				return nil, false
+			}
+		case *ssa.DebugRef:
+		default:
+			return nil, false
+		}
+	}
+	ci.ok = true
+	return ci.ents, true
+}
+
+type constMapInfo struct {
+	ents [][2]*ssa.Const
+	ok   bool
 }
 
 func (x *X) storeGlobal(s *State, g *ssa.Global, v Val) {
